@@ -195,6 +195,148 @@ def lrrp_token_args(r):
 
 
 # ------------------------------------------------------------------------------------------------
+# argument VARIANTS: values that compare equal to an argument (or collide with it under a natural but too coarse key)
+# and yet are not the same value for the callee.  A memo / cache / "same as last time" shortcut keyed by something
+# coarser than the argument - ==, to01(), tolist(), tobytes(), ba2int(), bytes(), int.from_bytes(), hash(), id(),
+# a masked or normalised value, the first argument only - answers the second call of f(x); f(x') with the remembered
+# result of the first.  Each class names the key that would identify x and x'.
+def _octet_mirror(s):
+    """0/1 values of the bitarray of the other bit order that has the same buffer octets (tobytes()); pad bits are zero"""
+    pad = s + "0" * (-len(s) % 8)
+    return "".join(pad[i : i + 8][::-1] for i in range(0, len(pad), 8))
+
+
+def arg_variants(e, r):
+    """[(class, encoded argument')] for one encoded argument"""
+    t = e[0]
+    out = []
+    if t in ("b", "bl"):
+        s = e[1]
+        o = "bl" if t == "b" else "b"
+        strong = len(set(s)) == 2 and s != s[::-1]  # otherwise both bit orders are (nearly) the same value
+        if strong:
+            # bitarray == / to01() / tolist() / iteration ignore the bit order; ba2int(), tobytes(), bytereverse() do not
+            out.append(("endian", [o, s]))
+            # the same buffer octets read in the other bit order: tobytes() / memoryview / bytes() keys
+            out.append(("tobytes-endian", [o, _octet_mirror(s)]))
+        # the same ba2int(): leading (big) / trailing (little) zeros added or dropped - the length is lost
+        z = "0" * r.choice([1, 1, 4, 8])
+        out.append(("ba2int-length", [t, z + s if t == "b" else s + z]))
+        cut = s.lstrip("0") if t == "b" else s.rstrip("0")
+        if cut and cut != s:
+            out.append(("ba2int-length", [t, cut]))
+        # the same tobytes(): the zero pad bits of the last octet become part of the value / trailing zeros become pad bits
+        if len(s) % 8:
+            out.append(("tobytes-padding", [t, s + "0" * (-len(s) % 8)]))
+        tz = len(s) - len(s.rstrip("0"))
+        if s and len(s) % 8 == 0 and tz:
+            out.append(("tobytes-padding", [t, s[: -min(tz, r.choice([1, 3, 7]))]]))
+        # equal and hash-equal, another type
+        out.append(("frozen-bitarray", ["fb" if t == "b" else "fbl", s]))
+    elif t in ("x", "xa"):
+        h = e[1]
+        # bytes == bytearray == memoryview (and hash(bytes) == hash(memoryview))
+        for o in (("xa", "mv") if t == "x" else ("x", "mva")):
+            out.append(("bytes-type", [o, h]))
+        # the same int.from_bytes(.., "big") / lstrip(b"\0"); the same rstrip(b"\0") / ljust(n, b"\0")
+        out.append(("int-length", [t, "00" + h]))
+        if h.startswith("00") and len(h) > 2:
+            out.append(("int-length", [t, h[2:]]))
+        out.append(("zero-padding", [t, h + "00"]))
+        if h.endswith("00") and len(h) > 2:
+            out.append(("zero-padding", [t, h[:-2]]))
+    elif t == "i":
+        v = e[1]
+        # 1 == True == 1.0 == numpy.int64(1), all with the same hash (functools.lru_cache(typed=False), dict keys)
+        if v in (0, 1):
+            out.append(("int-type", ["B", bool(v)]))
+        if abs(v) < 2**53:
+            out.append(("int-type", ["f", float(v)]))
+        if -(2**63) <= v < 2**63:
+            out.append(("int-type", ["npi", v]))
+        # the same value under a mask (v & 0xFF, v % 65536, …)
+        out.append(("int-mask", ["i", v ^ (1 << r.choice([8, 16, 24, 32]))]))
+    elif t == "f":
+        if float(e[1]).is_integer():
+            out.append(("int-type", ["i", int(e[1])]))
+    elif t == "s":
+        v = e[1]
+        if v.swapcase() != v:
+            out.append(("str-normalised", ["s", v.upper() if v.upper() != v else v.lower()]))
+        out.append(("str-normalised", ["s", v + " "]))
+    elif t == "np":
+        # numpy.array_equal / tolist() / == do not see the element type or the container
+        for dt in ("bool", "uint8", "float64"):
+            out.append(("array-type", ["npd", dt, e[1]]))
+        out.append(("array-type", ["l", [I(x) for x in e[1]]]))
+    elif t == "d":
+        # dict == ignores the insertion order, iteration does not
+        if len(e[1]) >= 2:
+            out.append(("dict-order", ["d", list(reversed(e[1]))]))
+    return [(c, v) for c, v in out if v != e]
+
+
+HOLDABLE = {"b", "bl", "xa", "np", "d"}
+
+
+def other_content(e, r, others_j):
+    """another content for a buffer the caller re-uses: the same kind of value from another pool call, or a few flipped bits"""
+    t = e[0]
+    same = [o for o in others_j if o[0] == t and o != e]
+    if same and r.random() < 0.5:
+        return r.choice(same)
+    if t in ("b", "bl"):
+        return [t, flip_bits(r, e[1])] if e[1] else (same[0] if same else None)
+    if t == "xa":
+        return [t, flip_hex(r, e[1])] if e[1] else (same[0] if same else None)
+    if t == "np":
+        if not e[1]:
+            return same[0] if same else None
+        k = r.randrange(len(e[1]))
+        return [t, [1 - x if i == k else x for i, x in enumerate(e[1])]]
+    if t == "d":
+        return same[0] if same else None
+    return None
+
+
+CFG_EPS = {"bitcrc.bitwise", "bitcrc.table", "bitcrc.persistent", "bitcrc.verify", "m.crc.new", "m.crc.kept"}
+
+
+def in_domain(spec):
+    """reverse_input_bytes on a partial octet reads bitarray's pad bits (unspecified, see crc_cfg_data): whole octets only"""
+    if spec["ep"] in CFG_EPS:
+        c = spec["a"][0]
+        if c[0] == "l" and len(c[1]) == 6 and c[1][4][1]:
+            for e in spec["a"][1:]:
+                e = e[2] if e[0] == "h" else e
+                if e[0] in ("b", "bl", "fb", "fbl") and len(e[1]) % 8:
+                    return False
+    return True
+
+
+def spec_variants(spec, r, others):
+    """[(class, call A, call B)]: B differs from A in ONE argument, by a variant of it (arg_variants), by the value another
+    pool call has there (a key that drops that argument: mask, flag, second operand), or A and B hand over the very same
+    buffer object whose content the caller replaced in between (a key by identity / a remembered reference)"""
+    nm, a = spec["ep"], spec["a"]
+    out = []
+    for j, e in enumerate(a):
+        for cls, e2 in arg_variants(e, r):
+            out.append((cls, spec, {"ep": nm, "a": a[:j] + [e2] + a[j + 1 :]}))
+    if len(a) >= 2:
+        for j, e in enumerate(a):
+            cand = [o["a"][j] for o in others if len(o["a"]) == len(a) and o["a"][j] != e]
+            if cand:
+                out.append(("other-argument", spec, {"ep": nm, "a": a[:j] + [r.choice(cand)] + a[j + 1 :]}))
+    for j, e in enumerate(a):
+        if e[0] in HOLDABLE:
+            e2 = other_content(e, r, [o["a"][j] for o in others if len(o["a"]) == len(a)])
+            if e2 is not None and e2 != e:
+                out.append(("held-buffer", {"ep": nm, "a": a[:j] + [["h", j, e]] + a[j + 1 :]}, {"ep": nm, "a": a[:j] + [["h", j, e2]] + a[j + 1 :]}))
+    return out
+
+
+# ------------------------------------------------------------------------------------------------
 # the catalogue: name -> (family, state tags it shares, generator of encoded arguments)
 def catalogue():
     C = {}
@@ -604,8 +746,22 @@ def run(ctx):
                 seen.add(k)
                 lst.append(spec)
         pool[nm] = lst
+    # ---------------- variants: pairs of calls (A, B) of one entry point that a coarse memo key would identify
+    kvar = min(ctx.budget(2, 6), 6)
+    var_pairs = []
+    for nm in names:
+        quota = {}
+        for s in pool[nm][: 4 * kvar]:
+            for cls, sa, sb in spec_variants(s, r, [o for o in pool[nm] if o is not s]):
+                if quota.get(cls, 0) < kvar and in_domain(sa) and in_domain(sb):
+                    quota[cls] = quota.get(cls, 0) + 1
+                    var_pairs.append((cls, sa, sb))
+        for cls, n in quota.items():
+            ctx.count(f"variant:{cls}", n)
+        if quota:
+            ctx.count("variant:entry-points")
     hist_corpus = corpus_specs()
-    all_specs = [s for nm in names for s in pool[nm]]
+    all_specs = [s for nm in names for s in pool[nm]] + [x for _, sa, sb in var_pairs for x in (sa, sb)]
     for _, calls in hist_corpus:
         for s in calls:
             all_specs.append(s)
@@ -663,6 +819,10 @@ def run(ctx):
     for nm in names:
         for s in pool[nm][: ctx.budget(3, 12)]:
             histories.append(("twice", [s, s]))
+    # variants back to back on the same entry point: f(x); f(x'); f(x)  and  f(x'); f(x); f(x')
+    for cls, sa, sb in var_pairs:
+        histories.append((f"variant:{cls}", [sa, sb, sa]))
+        histories.append((f"variant:{cls}", [sb, sa, sb]))
     # ordered pairs of entry points sharing inventoried state: A;B and B;A
     tags = sorted({t for nm in names for t in CAT[nm]["tags"]})
     npairs = 0
